@@ -32,6 +32,9 @@ CHECKS = {
  'C18': ('cabi', 'bounded-exhaustive enumeration of inputs (static) and of call histories (dynamic) through the C functions of cpgm.h only, std::lower_bound / std::map oracles',
          'Static: every sorted array up to N for the four C types with run-time epsilon in {1,2,3,64,4096} and the block grammar, all alphabet queries, NULL exactly when the reserved value is present. Dynamic: every history of insert_or_assign/erase over 4 colliding keys x 2 values up to the stated depth from create_empty, from every create() of <= 3 pairs and from a deep state whose next insert merges the 585-entry buffer into level 4; find, lower_bound + iterator_next, begin + iterator_next to exhaustion, size compared with std::map after every step.',
          'cpgm.cpp compiled from the repository; opaque handles cannot be copied, so histories are re-executed from scratch.', '4/C18'),
+ 'C19': ('copymove', 'exhaustive enumeration of copy/move/destroy/mutate/query histories over two slots on the real classes under AddressSanitizer',
+         'For 10 class instantiations and every ordered pair of 3 datasets, every valid history up to the stated length over {copy-construct, move-construct, copy-assign, move-assign, destroy source, mutate source, query target}: the target answers its whole query alphabet exactly like a freshly built original and AddressSanitizer reports no access to freed or foreign storage.',
+         'AddressSanitizer build (-O1, no NDEBUG); a moved-from source is only destroyed or assigned to.', '4/C19'),
  'C13': ('multidim', 'bounded-exhaustive enumeration of point multisets x boxes on the real MultidimensionalPGMIndex at the real miss threshold, brute-force oracle',
          'Every multiplicity vector in {0,1,65}^cells over small cell universes (65 copies force the bigmin skip path), full grids 16x16/32x32/8^3/4^4 with every axis-aligned box, grids with an enumerated window; Dimensions 2..4, uint32/uint64, Epsilon 1..16(64): the sequence produced by range(min,max) up to end() must equal the brute-force filter in Morton order with multiplicity and terminate.',
          'Own Morton code (self-checked against the library at start-up); coordinates fit the encoder.', '4/C13'),
@@ -102,6 +105,8 @@ def main():
              'kind_free_text': 'bounded-exhaustive enumeration of inputs and file-lifecycle histories on the real MappedPGMIndex'},
             {'name': 'cabi', 'path': 'engines/cabi.cpp', 'serves_properties': ['C18'],
              'kind_free_text': 'bounded-exhaustive enumeration of inputs and call histories through the C interface'},
+            {'name': 'copymove', 'path': 'engines/copymove.cpp', 'serves_properties': ['C19'],
+             'kind_free_text': 'exhaustive value-semantics histories under AddressSanitizer'},
             {'name': 'segmentation', 'path': 'engines/segmentation.cpp', 'serves_properties': ['C03', 'C04'],
              'kind_free_text': 'bounded-exhaustive enumeration of inputs to the piecewise-linear builder with hook H1 and exact rational oracles'},
         ],
